@@ -152,7 +152,7 @@ class WsExec:
         if t.startswith("R"):
             rt = self.opts["recv_timeout"]
             coro = self._receiver(t, self.opts["nrecv"], float(rt) if rt else None)
-        elif t.startswith("C"):
+        elif t.startswith(("C", "D")):
             coro = self._closer(t)
         else:
             coro = self._sender(t)
@@ -332,7 +332,7 @@ def replay_behaviour(ctx: Ctx, loop: Any, beh: List[Any], consts: dict, src: str
                 drift = f"state:{act}:{diff[0]}"
                 break
             mres = {t: _seq(r) for t, r in ms["res"].items()}
-            for t in ("R", "C", "S"):
+            for t in ("R", "C", "D", "S"):
                 if mres.get(t, []) != x.res.get(t, []):
                     drift = f"result:{t}:{mres.get(t)}!={x.res.get(t)}"
                     break
@@ -581,7 +581,8 @@ def run(ctx: Ctx) -> None:
             cover_jobs.append((side, ck, consts, pool.submit(cover_behaviours, "WsSession", p, timeout=2400, workers=1)))
         for kw in (dict(tasks=("R", "C", "S"), kinds=("data", "close", "ping", "bad"), rt=1, mp=3, mt=4),
                    dict(hb=2, mt=5, kinds=("data", "close", "pong"), mp=3),
-                   dict(autoclose=False, nrecv=3, mp=3, mt=4)):
+                   dict(autoclose=False, nrecv=3, mp=3, mt=4),
+                   dict(tasks=("R", "C", "D"), kinds=("data", "close", "ping"), mp=3, mt=4, invs=["NoInternalAssert"])):
             p, consts = write_cfg(side, fixed=False, **kw)
             sim_jobs.append((side, consts, pool.submit(simulate_behaviours, "WsSession", p, num=ctx.pick(60, 1500), depth=40,
                                                        seed=ctx.seed, timeout=600)))
